@@ -159,6 +159,38 @@ let run_mon_prober lines =
      | _ -> failwith "mon-prober: first operation must be NEW")
   | [] -> failwith "mon-prober: empty"
 
+(* hostname: args = [ifaces token]; lines "HOSTNAME <hex>", "NEW 0 hostname", then operations *)
+let ifaces_of_tok s =
+  if s = "-" then [] else
+  List.map (fun i -> if i = "_" then [] else
+    List.map (fun e -> match split_on '/' e with
+      | [a; p] -> (addr_of_tok a, z_of_int (int_of_string p))
+      | _ -> failwith ("iface entry: " ^ e)) (split_on ',' i)) (split_on ';' s)
+let hostname_split lines =
+  match lines with
+  | l1 :: l2 :: rest ->
+    (match words l1, words l2 with
+     | ["HOSTNAME"; h], ["NEW"; _; "hostname"] -> (bytes_of_tok h, rest)
+     | _ -> failwith "hostname script must start with HOSTNAME <hex> / NEW <obj> hostname")
+  | _ -> failwith "short hostname script"
+let run_hostname args lines =
+  let ifs = ifaces_of_tok (match args with [a] -> a | _ -> "-") in
+  let (local, rest) = hostname_split lines in
+  match host_run fuel_actor local ifs (List.map (aop_of_line no_api) rest) with
+  | g0 :: gs -> out_line "."; print_groups (g0 :: gs); out_line "."
+  | [] -> ()
+let run_mon_hostname args lines =
+  let ifs = ifaces_of_tok (match args with [a] -> a | _ -> "-") in
+  let tr = group_trace (fun s -> s) out_of_line lines in
+  match tr with
+  | (l1, _) :: (_, o0) :: rest ->
+    (match words l1 with
+     | ["HOSTNAME"; h] ->
+       let rest = List.filter (fun (s, _) -> s <> "END") rest in
+       print_verdict (mon_hostname (bytes_of_tok h) ifs (List.map (fun (s, _) -> aop_of_line no_api s) rest) (o0 :: List.map snd rest))
+     | _ -> failwith "mon-hostname: first operation must be HOSTNAME")
+  | _ -> failwith "mon-hostname: short trace"
+
 (* ---------------- main ---------------- *)
 let engines : (string * (string list -> string list -> unit)) list ref = ref []
 let register name f = engines := (name, f) :: !engines
@@ -168,7 +200,9 @@ let () =
   register "mon-cache" (fun _ lines -> run_mon_cache lines);
   register "codec" (fun _ lines -> run_codec lines);
   register "prober" (fun _ lines -> run_prober lines);
-  register "mon-prober" (fun _ lines -> run_mon_prober lines)
+  register "mon-prober" (fun _ lines -> run_mon_prober lines);
+  register "hostname" run_hostname;
+  register "mon-hostname" run_mon_hostname
 
 let flush_script hdr lines =
   match hdr with
